@@ -19,7 +19,7 @@ SYMX = "bounded symbolic execution of the real generic hpbf code over SMT bit-ve
 
 checks = [
  chk("C01", "translation_validation",
-     "For every program of the corpus, every width and optimisation level, the real parse/optimize/IrInterpreter code runs symbolically over all input bytes and end-of-input positions; the solver decides on every explored path that each output byte and the interleaving with input requests equal the reference's.",
+     "For every program of the corpus, every width and optimisation level, the real parse/optimize/IrInterpreter code runs symbolically over all input bytes and end-of-input positions; the solver decides on every explored path that each output byte and the interleaving with input requests equal the reference's.  SHAPES part: up to 3 constants of a corpus program become solver variables, the real optimize() runs inside the exploration and unoptimised vs optimised IR are compared for all values of those constants (within the decision cap).",
      BASE_NOTE, SYMX),
  chk("C02", "translation_validation",
      "As C01 for parse/optimize/bc::CodeGen::translate/BcInterpreter threaded code, in both build profiles (debug-assertions trampolined dispatch and release tail-called dispatch).",
